@@ -53,6 +53,19 @@ class UtilCase(Case):
                         if helper_u:
                             r2 = it.call(helper_u, [b, self.spelling, sg])
                             ctx.prove(f"{helper_u.__name__}/{'signed' if signed else 'unsigned'}/inverts", _norm(zint(r2) == xs))
+        elif self.which == "pack-odd":
+            # widths that are not a multiple of 8: the value occupies ceil(bits / 8) bytes
+            xs = z3.Int("x")
+            ctx.assume(z3.And(xs >= 0, xs < (1 << self.bits)))
+            nb = (self.bits + 7) // 8
+            try:
+                b = it.call(utils.pack, [xs, self.bits, self.spelling])
+            except PyRaise as e:
+                ctx.prove("pack/accepts-values-that-fit-an-odd-width", False, info=e.cls.__name__)
+                return
+            items = SBytes.of(b).items
+            le = items if order == "little" else list(reversed(items))
+            ctx.prove("pack/odd-width-rounds-up-to-whole-bytes", len(le) == nb and _norm(z3.And(*[scalars.digit(xs, i) == zint(le[i]) for i in range(nb)])), info=f"{len(le)} bytes for {self.bits} bits")
         elif self.which == "unpack":
             bs = [z3.Int(f"b{i}") for i in range(n)]
             for b in bs:
@@ -91,4 +104,7 @@ def specs(tier="quick"):
             out.append(("contracts.utilsfns", "make_util", ("pack", bits, sp)))
             out.append(("contracts.utilsfns", "make_util", ("unpack", bits, sp)))
         out.append(("contracts.utilsfns", "make_util", ("swap", bits, "little")))
+    for bits in (1, 4, 9, 12, 20, 31, 33):
+        for sp in ("little", ">"):
+            out.append(("contracts.utilsfns", "make_util", ("pack-odd", bits, sp)))
     return out
